@@ -3,7 +3,7 @@ from pathlib import Path
 def sh(c, cwd, env=None):
     r = subprocess.run(c, shell=True, cwd=cwd, capture_output=True, text=True, env=env); return r.returncode, r.stdout + r.stderr
 base = None
-for d in [None] + sorted(Path('/verif/selftest/twins').glob('*/')):
+for d in [None] + [x for x in sorted(Path('/verif/selftest/twins').glob('*/')) if len(sys.argv) < 2 or any(a in x.name for a in sys.argv[1:])]:
     wt = tempfile.mkdtemp(prefix='pyabtw_'); os.rmdir(wt)
     sh(f'git -C /repo worktree add -q --detach {wt} HEAD', '/')
     env = dict(os.environ, PYTHONPATH=f'{wt}/src')
@@ -13,7 +13,7 @@ for d in [None] + sorted(Path('/verif/selftest/twins').glob('*/')):
             assert rc == 0, o
             rc, o = sh('/venv/bin/python -m pytest -q -p no:cacheprovider -n 4 2>&1 | tail -1', wt, env)
             tests = o.strip()
-        rc, o = sh('/venv/bin/python /tmp/twin_eq.py', wt, env)
+        rc, o = sh(f'/venv/bin/python {Path(__file__).resolve().parent}/twin_equivalence_probe.py', wt, env)
         if d is None:
             base = o; print('base rc', rc, len(o))
         else:
